@@ -894,6 +894,154 @@ fn template_family(out: &mut Out) {
 
 static LAST_PANIC: std::sync::Mutex<String> = std::sync::Mutex::new(String::new());
 
+// ------------------------------------------------------------------ placement (C06): SemVer::from(Zerv) / PEP440::from(Zerv)
+// Oracle written from the property statement; only the value of a non-secondary component is taken from the real
+// resolve_value (its content is C01's subject) — where each value goes is decided here independently.
+
+fn placement_family(out: &mut Out, semver: bool) {
+    use zerv::version::zerv::components::{Component as C, Var};
+    use zerv::version::zerv::core::{PreReleaseVar, Zerv};
+    use zerv::version::zerv::{ZervSchema, ZervVars};
+    let fam = if semver { "semver_from_zerv" } else { "pep440_from_zerv" };
+    let cores: Vec<Vec<C>> = vec![
+        vec![C::Var(Var::Major), C::Var(Var::Minor), C::Var(Var::Patch)],
+        vec![C::Var(Var::Major)],
+        vec![],
+        vec![C::Var(Var::Major), C::Var(Var::Minor), C::Var(Var::Patch), C::UInt(9), C::Var(Var::Distance)],
+        vec![C::Str("Feat.x".into()), C::Var(Var::Major), C::UInt(7), C::Str("007".into()), C::Var(Var::Patch), C::UInt(4)],
+        vec![C::Var(Var::BumpedBranch), C::Var(Var::Minor), C::Str("".into()), C::Str("1.2".into())],
+        vec![C::UInt(4294967296), C::UInt(1), C::Var(Var::Dirty), C::UInt(2), C::UInt(3), C::UInt(4)],
+        vec![C::Var(Var::Minor), C::Var(Var::Patch), C::Str("-".into()), C::Var(Var::LastTimestamp)],
+    ];
+    let extras: Vec<Vec<C>> = vec![
+        vec![],
+        vec![C::Var(Var::Epoch), C::Var(Var::PreRelease), C::Var(Var::Post), C::Var(Var::Dev)],
+        vec![C::Var(Var::Dev), C::Str("Mid.5".into()), C::Var(Var::Post), C::UInt(12), C::Var(Var::PreRelease), C::Var(Var::Epoch)],
+        vec![C::Var(Var::BumpedBranch), C::Var(Var::PreRelease), C::Var(Var::Distance)],
+        vec![C::Var(Var::Post), C::Var(Var::BumpedCommitHashShort), C::Str("".into())],
+    ];
+    let builds: Vec<Vec<C>> = vec![
+        vec![],
+        vec![C::Var(Var::BumpedBranch), C::Var(Var::Distance), C::Var(Var::BumpedCommitHashShort)],
+        vec![C::Str("B.01.x".into()), C::UInt(5), C::Var(Var::Dirty)],
+    ];
+    let mut assignments: Vec<ZervVars> = Vec::new();
+    for (maj, min, pat) in [(Some(1u64), Some(2u64), Some(3u64)), (Some(0), None, Some(5)), (None, None, None)] {
+        for epoch in [None, Some(0u64), Some(4)] {
+            for pre in [None, Some((PreReleaseLabel::Alpha, None)), Some((PreReleaseLabel::Beta, Some(0u64))), Some((PreReleaseLabel::Rc, Some(12)))] {
+                for (post, dev) in [(None, None), (Some(0u64), Some(7u64)), (Some(3), None)] {
+                    for branch in [None, Some("Feature/Äx.01-y"), Some("release/2.x")] {
+                        assignments.push(ZervVars {
+                            major: maj, minor: min, patch: pat, epoch,
+                            pre_release: pre.clone().map(|(label, number)| PreReleaseVar { label, number }),
+                            post, dev,
+                            distance: if branch.is_some() { Some(3) } else { None },
+                            dirty: if post.is_some() { Some(true) } else { None },
+                            bumped_branch: branch.map(String::from),
+                            bumped_commit_hash: branch.map(|_| "0A1b2c3d4e5f".to_string()),
+                            last_timestamp: Some(1710511845),
+                            ..Default::default()
+                        });
+                    }
+                }
+            }
+        }
+    }
+    let uint = Sanitizer::uint();
+    let strs = if semver { Sanitizer::semver_str() } else { Sanitizer::pep440_local_str() };
+    let flat = |v: &str| -> Vec<String> {
+        v.split('.').filter(|p| !p.is_empty()).map(|p| match p.parse::<u32>() {
+            Ok(n) => n.to_string(),
+            Err(_) => if semver { p.to_string() } else { p.to_lowercase() },
+        }).collect()
+    };
+    let int_of = |c: &C, vars: &ZervVars| -> Option<u32> {
+        c.resolve_value(vars, &uint).filter(|v| !v.is_empty()).and_then(|v| v.parse::<u32>().ok())
+    };
+    let text_of = |c: &C, vars: &ZervVars| -> Vec<String> {
+        c.resolve_value(vars, &strs).filter(|v| !v.is_empty()).map(|v| flat(&v)).unwrap_or_default()
+    };
+    let secondary = |v: &Var| matches!(v, Var::Epoch | Var::PreRelease | Var::Post | Var::Dev);
+    for core in &cores {
+        for extra in &extras {
+            for build in &builds {
+                let schema = match ZervSchema::new(core.clone(), extra.clone(), build.clone()) {
+                    Ok(s) => s,
+                    Err(_) => continue,
+                };
+                for vars in &assignments {
+                    out.cases += 1;
+                    let zerv = Zerv { schema: schema.clone(), vars: vars.clone() };
+                    let expected = if semver {
+                        let mut nums: Vec<u32> = Vec::new();
+                        let mut pre: Vec<String> = Vec::new();
+                        for c in core {
+                            match int_of(c, vars) {
+                                Some(n) if nums.len() < 3 => nums.push(n),
+                                _ => pre.extend(text_of(c, vars)),
+                            }
+                        }
+                        while nums.len() < 3 { nums.push(0); }
+                        for c in extra {
+                            match c {
+                                C::Var(v) if secondary(v) => match v {
+                                    Var::Epoch => if let Some(n) = vars.epoch { pre.push("epoch".into()); pre.push(n.to_string()); },
+                                    Var::Post => if let Some(n) = vars.post { pre.push("post".into()); pre.push(n.to_string()); },
+                                    Var::Dev => if let Some(n) = vars.dev { pre.push("dev".into()); pre.push(n.to_string()); },
+                                    _ => if let Some(pr) = &vars.pre_release {
+                                        pre.push(match pr.label { PreReleaseLabel::Alpha => "alpha", PreReleaseLabel::Beta => "beta", PreReleaseLabel::Rc => "rc" }.into());
+                                        if let Some(n) = pr.number { pre.push(n.to_string()); }
+                                    },
+                                },
+                                _ => pre.extend(text_of(c, vars)),
+                            }
+                        }
+                        let mut b: Vec<String> = Vec::new();
+                        for c in build { b.extend(text_of(c, vars)); }
+                        let mut s = format!("{}.{}.{}", nums[0], nums[1], nums[2]);
+                        if !pre.is_empty() { s.push('-'); s.push_str(&pre.join(".")); }
+                        if !b.is_empty() { s.push('+'); s.push_str(&b.join(".")); }
+                        s
+                    } else {
+                        let mut rel: Vec<u32> = Vec::new();
+                        let mut local: Vec<String> = Vec::new();
+                        for c in core {
+                            match int_of(c, vars) { Some(n) => rel.push(n), None => local.extend(text_of(c, vars)) }
+                        }
+                        if rel.is_empty() { rel.push(0); }
+                        let (mut epoch, mut pre, mut post, mut dev) = (0u64, String::new(), String::new(), String::new());
+                        for c in extra {
+                            match c {
+                                C::Var(v) if secondary(v) => match v {
+                                    Var::Epoch => if let Some(n) = vars.epoch { epoch = n; },
+                                    Var::Post => if let Some(n) = vars.post { post = format!(".post{n}"); },
+                                    Var::Dev => if let Some(n) = vars.dev { dev = format!(".dev{n}"); },
+                                    _ => if let Some(pr) = &vars.pre_release {
+                                        pre = format!("{}{}", match pr.label { PreReleaseLabel::Alpha => "a", PreReleaseLabel::Beta => "b", PreReleaseLabel::Rc => "rc" }, pr.number.unwrap_or(0));
+                                    },
+                                },
+                                _ => local.extend(text_of(c, vars)),
+                            }
+                        }
+                        for c in build { local.extend(text_of(c, vars)); }
+                        let mut s = String::new();
+                        if epoch != 0 { s.push_str(&format!("{epoch}!")); }
+                        s.push_str(&rel.iter().map(|n| n.to_string()).collect::<Vec<_>>().join("."));
+                        s.push_str(&pre); s.push_str(&post); s.push_str(&dev);
+                        if !local.is_empty() { s.push('+'); s.push_str(&local.join(".")); }
+                        s
+                    };
+                    let got = if semver { SemVer::from(zerv).to_string() } else { PEP440::from(zerv).to_string() };
+                    if got != expected {
+                        out.cex(fam, format!("core={core:?} extra_core={extra:?} build={build:?} vars={{major:{:?},minor:{:?},patch:{:?},epoch:{:?},pre_release:{:?},post:{:?},dev:{:?},distance:{:?},dirty:{:?},bumped_branch:{:?}}}: rendered {got:?}, the placement rule gives {expected:?}",
+                            vars.major, vars.minor, vars.patch, vars.epoch, vars.pre_release, vars.post, vars.dev, vars.distance, vars.dirty, vars.bumped_branch));
+                    }
+                }
+            }
+        }
+    }
+}
+
 fn main() {
     let fam = std::env::args().nth(1).unwrap_or_default();
     let mut out = Out { found: 0, cases: 0 };
@@ -933,6 +1081,8 @@ fn run_family(fam: &str, out: &mut Out) {
         "pep440_display" => parts_family(&mut out, false),
         "resolve_barrier" => barrier_family(&mut out),
         "template_functions" => template_family(&mut out),
+        "semver_from_zerv" => placement_family(&mut out, true),
+        "pep440_from_zerv" => placement_family(&mut out, false),
         _ => {
             eprintln!("unknown family {fam}");
             std::process::exit(64);
